@@ -35,15 +35,18 @@ var (
 	reCall     = regexp.MustCompile(`^([a-z_0-9]+)\((.*)$`)
 	reResumed  = regexp.MustCompile(`^<\.\.\. ([a-z_0-9]+) resumed>(.*)$`)
 	rePathAnno = regexp.MustCompile(`<(/[^>]*)>`)
+	reRet      = regexp.MustCompile(`\)\s+= `)
 	reQuoted   = regexp.MustCompile(`"((?:[^"\\]|\\.)*)"`)
 )
 
 // splitRet splits "args) = ret" at the last ") = ".
 func splitRet(s string) (args, ret string, done bool) {
-	if i := strings.LastIndex(s, ") = "); i >= 0 {
-		return s[:i], strings.TrimSpace(s[i+4:]), true
+	locs := reRet.FindAllStringIndex(s, -1)
+	if len(locs) == 0 {
+		return s, "", false
 	}
-	return s, "", false
+	l := locs[len(locs)-1]
+	return s[:l[0]], strings.TrimSpace(s[l[1]:]), true
 }
 
 // parseTrace reads an `strace -f -y -o` file.
